@@ -994,10 +994,24 @@ static int _ov_open2(OggVorbis_File *vf){
   if(vf->ready_state != PARTOPEN) return OV_EINVAL;
   vf->ready_state=OPENED;
   if(vf->seekable){
+    /* a half-rate request made on the partially open handle has only
+       reached the first link; the links found now are given it too */
+    int hs=vorbis_synthesis_halfrate_p(vf->vi);
     int ret=_open_seekable2(vf);
     if(ret){
       vf->datasource=NULL;
       ov_clear(vf);
+    }else if(hs){
+      int i;
+      for(i=1;i<vf->links;i++)
+        if(vorbis_synthesis_halfrate(vf->vi+i,1))break;
+      if(i<vf->links){
+        /* a link that cannot be decoded at half rate: ov_halfrate
+           would have refused the request had it seen that link.
+           Take it back everywhere (clearing the flag does not fail) */
+        for(i=0;i<vf->links;i++)
+          if(vorbis_synthesis_halfrate(vf->vi+i,0))break;
+      }
     }
     return(ret);
   }else
